@@ -79,17 +79,24 @@ for (_sn, _s) in SETS.items():
         CONV[(_sn, _ln)] = make_converter(t.Annotated[t.Union[_s['variants']], Tagged(_s['tag'], external=ext)])
     for _v in _s['variants']:
         VCONV[_v] = make_converter(_v)
+# the same three layouts of set 's' followed by a (vacuous) condition: Annotated[Union[..], Tagged(..), Condition]
+from pane.annotations import Condition
+_ALWAYS = Condition(lambda v: True, 'always')
+SETS['c'] = dict(SETS['s'])
+for (_ln, _ext) in LAYOUTS.items():
+    ext = SETS['c']['adj'] if _ext is None else _ext
+    CONV[('c', _ln)] = make_converter(t.Annotated[t.Union[SETS['c']['variants']], Tagged('t', external=ext), _ALWAYS])
 
 
 def tag_of(sn, tk):
     """tag kinds per variant set; 1..3 are (or would be) declared tags, the rest foreign / ill-kinded"""
-    if sn == 's' or sn == 'h':
+    if sn == 's' or sn == 'h' or sn == 'c':
         if tk == 1:
-            return 'x' if sn == 's' else 'hb'
+            return 'x' if sn != 'h' else 'hb'
         elif tk == 2:
             return 'y'
         elif tk == 3:
-            return 'z' if sn == 's' else 'hd'
+            return 'z' if sn != 'h' else 'hd'
         elif tk == 4:
             return 'q'
         elif tk == 5:
@@ -121,7 +128,7 @@ def tag_of(sn, tk):
 
 def variant_of(sn, tk):
     """the variant class whose DECLARED tag equals tag kind tk, else None (reference: the class definitions above)"""
-    if sn == 's':
+    if sn == 's' or sn == 'c':
         if tk == 1:
             return VX
         elif tk == 2:
